@@ -25,6 +25,16 @@ TABLE = {
             "Held on the generated gap-pattern cases: every event (kind, bytes, offset, line number, separators, final byte count) equals the model's, under slice, tiny-buffer reader and a third strategy, and in rg's text output.",
             "The per-line match verdicts come from the C01 oracle; context kind is left open where a line is both after- and before-context.",
             "DESIGN.md §3 C03"),
+    "C11": (True, "exploration",
+            "runtime monitoring of the built RegexMatcher's promises (line_terminator, non_matching_bytes, find_candidate_line, is_match) against a reference engine on language-directed and exhaustive small-alphabet lines; the two grep-regex HIR hooks steer the sampler",
+            "No witness found among the lines produced: terminator never inside a match, language over terminator-free lines unchanged, declared non-matching bytes never inside a match, candidate search never passes over a matching line; patterns requiring the terminator were rejected. The 'over ALL lines' quantifier is only approximated (see level_note).",
+            "The statement quantifies over all lines per pattern; a monitor can refute it with a witness but cannot decide it. The automata-product decision procedure mentioned in the quantifier is a different technique family and deliberately not built; claim = held on the sampled and exhaustively enumerated short lines.",
+            "DESIGN.md §3 C11, §5"),
+    "C12": (True, "exploration",
+            "runtime differential monitoring: GlobSet::matches / is_match vs the individually compiled GlobMatchers, and each glob vs an independent backtracking matcher written from the documentation, over exhaustively enumerated globs and paths of a small alphabet",
+            "Held on every (glob, path) pair of the enumerated space (all token sequences to the tier's bound x all paths over {a,b,.,/,-,A} to the bound, plus random longer and non-UTF-8 paths): set answers = member answers, compiled glob = documented meaning wherever the documentation is unambiguous.",
+            "Oracle 2 is only as good as my reading of the globset documentation; readings the docs leave open are evaluated both ways and skipped when they differ.",
+            "DESIGN.md §3 C12"),
     "C13": (True, "exploration",
             "runtime monitoring: flattened Sink event streams of the multi-line strategies and rg -U stdout checked against a whole-input reference model (successive leftmost matches via the regex engine with look-around over the full input, mapped to covered lines, then the C03 grep model)",
             "Held on the generated multi-line cases (patterns crossing lines, anchors and word boundaries next to the terminator, branches that start where the previous match ended, empty matches, dotall, CRLF, inversion, context): reported lines = covered lines, each once, in order.",
